@@ -332,7 +332,7 @@ class EptMapResult:
                     b"".join(f.pack() for f in t),
                 ]
             )
-            padding = -(len(b_t)) % 4
+            padding = -(len(b_t) + 4) % 8
             b_tower += b"".join(
                 [
                     len(b_t).to_bytes(8, byteorder="little"),
